@@ -13,6 +13,7 @@ import Propka.Model.PairLoop
 import Propka.Model.Angle
 import Propka.Model.Coupling
 import Propka.Model.ResList
+import Propka.Model.ScoringDriver
 /-! Line-protocol driver: one request per line `<module> <args…>`, one response line each. -/
 open Propka
 
@@ -35,6 +36,7 @@ def dispatch (ws : List String) : String :=
   | "angle" :: r => Angle.handle r
   | "coupling" :: r => Coupling.handle r
   | "reslist" :: r => ResList.handle r
+  | "scoring" :: r => Scoring.handle r
   | ["ping"] => "pong"
   | _ => "bad-op"
 
